@@ -238,7 +238,7 @@ def slice_pattern_tests(body, const_bytes):
         for i in range(n):
             nb = body.blocks[cur.dst]
             nt = nb.term
-            if nt.kind != "switch" or nb.stmts:
+            if nt.kind != "switch" or any(st.kind != "assign" or st.rv["k"] != "use" for st in nb.stmts):
                 ok = False
                 break
             d = Operand(nt.raw["d"])
